@@ -2,6 +2,7 @@
 //! prints the decision / draw / op trace in the same canonical form as ocaml/l_prog.ml.
 use shuttle::sync::atomic::{AtomicU64, Ordering};
 use shuttle::thread;
+use shuttle_engine::future::batch_semaphore::{BatchSemaphore, Fairness, TryAcquireError};
 use shuttle_engine::runtime::execution::CurrentSchedule;
 use shuttle_engine::runtime::runner::Runner;
 use shuttle_engine::scheduler::{Schedule, ScheduleStep, Scheduler, Task, TaskId};
@@ -92,10 +93,38 @@ enum Op {
     Atomic(usize, AOp),
     ResetSteps,
     Panic,
+    SemAcq(usize, usize),
+    SemTry(usize, usize),
+    SemRel(usize, usize),
+    SemClose(usize),
+    SemAvail(usize),
+    Lock(usize),
+    TryLock(usize),
+    Unlock(usize),
+    RwLock(usize, bool),
+    RwTry(usize, bool),
+    RwUnlock(usize),
 }
 
 enum Obj {
     Atomic(AtomicU64),
+    Sem(BatchSemaphore),
+    Mutex(shuttle::sync::Mutex<()>),
+    RwLock(shuttle::sync::RwLock<()>),
+}
+
+enum Guard<'a> {
+    M(usize, shuttle::sync::MutexGuard<'a, ()>),
+    R(usize, shuttle::sync::RwLockReadGuard<'a, ()>),
+    W(usize, shuttle::sync::RwLockWriteGuard<'a, ()>),
+}
+
+impl Guard<'_> {
+    fn obj(&self) -> usize {
+        match self {
+            Guard::M(o, _) | Guard::R(o, _) | Guard::W(o, _) => *o,
+        }
+    }
 }
 
 struct Prog {
@@ -115,6 +144,25 @@ fn parse_op(w: &str) -> Op {
         "rn" => Op::Rand,
         "rs" => Op::ResetSteps,
         "pn" => Op::Panic,
+        "sa" | "st" | "sr" => {
+            let parts: Vec<&str> = w[2..].split('.').collect();
+            let (o, n) = (parts[0].parse().unwrap(), parts[1].parse().unwrap());
+            match &w[..2] {
+                "sa" => Op::SemAcq(o, n),
+                "st" => Op::SemTry(o, n),
+                _ => Op::SemRel(o, n),
+            }
+        }
+        "sc" => Op::SemClose(num(2)),
+        "sv" => Op::SemAvail(num(2)),
+        "lk" => Op::Lock(num(2)),
+        "tl" => Op::TryLock(num(2)),
+        "ul" => Op::Unlock(num(2)),
+        "rd" => Op::RwLock(num(2), false),
+        "wr" => Op::RwLock(num(2), true),
+        "tr" => Op::RwTry(num(2), false),
+        "tw" => Op::RwTry(num(2), true),
+        "ru" => Op::RwUnlock(num(2)),
         _ if w.starts_with('a') => {
             let parts: Vec<&str> = w.split('.').collect();
             let a = parts[0][1..].parse::<usize>().unwrap();
@@ -145,6 +193,13 @@ fn make_objs(specs: &[String]) -> Vec<Obj> {
         .iter()
         .map(|w| match w.as_bytes()[0] {
             b'a' => Obj::Atomic(AtomicU64::new(w[1..].parse::<u64>().unwrap())),
+            b'm' => Obj::Mutex(shuttle::sync::Mutex::new(())),
+            b'w' => Obj::RwLock(shuttle::sync::RwLock::new(())),
+            b's' => {
+                let parts: Vec<&str> = w[1..].split(':').collect();
+                let fair = if parts[1] == "f" { Fairness::StrictlyFair } else { Fairness::Unfair };
+                Obj::Sem(BatchSemaphore::new(parts[0].parse().unwrap(), fair))
+            }
             _ => panic!("bad object {w}"),
         })
         .collect()
@@ -166,13 +221,22 @@ fn log_op(tag: u32, vals: &[u64]) {
     ));
 }
 
+fn lock_code<G, P>(r: Result<G, std::sync::PoisonError<P>>, unwrap: impl FnOnce(P) -> G) -> (u64, G) {
+    match r {
+        Ok(g) => (0, g),
+        Err(p) => (1, unwrap(p.into_inner())),
+    }
+}
+
 fn run_body(p: Arc<Prog>, objs: Arc<Vec<Obj>>, b: usize) {
+    let objs_ref: &Vec<Obj> = &objs;
+    let mut guards: Vec<Guard<'_>> = Vec::new();
     let mut handles: Vec<Option<thread::JoinHandle<()>>> = Vec::new();
     let mut threads: Vec<thread::Thread> = Vec::new();
     let ops = p.bodies.get(b).cloned().unwrap_or_default();
     for op in ops {
         LAST_TASK.with(|c| c.set(me()));
-        match op {
+        match op.clone() {
             Op::Spawn(j) => {
                 let (p2, o2) = (p.clone(), objs.clone());
                 let h = thread::spawn(move || run_body(p2, o2, j));
@@ -213,7 +277,7 @@ fn run_body(p: Arc<Prog>, objs: Arc<Vec<Obj>>, b: usize) {
                 log_op(6, &[v]);
             }
             Op::Atomic(a, aop) => {
-                let Obj::Atomic(at) = &objs[a];
+                let Obj::Atomic(at) = &objs[a] else { panic!("vharness: not an atomic") };
                 let o = Ordering::SeqCst;
                 let (ok, ret) = match aop {
                     AOp::Ld => (true, at.load(o)),
@@ -244,9 +308,119 @@ fn run_body(p: Arc<Prog>, objs: Arc<Vec<Obj>>, b: usize) {
             Op::Panic => {
                 panic!("vpanic");
             }
+            Op::SemAcq(o, n) => {
+                let Obj::Sem(sm) = &objs_ref[o] else { panic!("vharness: not a semaphore") };
+                let r = sm.acquire_blocking(n);
+                log_op(10, &[r.is_ok() as u64]);
+            }
+            Op::SemTry(o, n) => {
+                let Obj::Sem(sm) = &objs_ref[o] else { panic!("vharness: not a semaphore") };
+                let r = match sm.try_acquire(n) {
+                    Ok(()) => 0,
+                    Err(TryAcquireError::NoPermits) => 1,
+                    Err(TryAcquireError::Closed) => 2,
+                };
+                log_op(11, &[r]);
+            }
+            Op::SemRel(o, n) => {
+                let Obj::Sem(sm) = &objs_ref[o] else { panic!("vharness: not a semaphore") };
+                sm.release(n);
+                log_op(12, &[]);
+            }
+            Op::SemClose(o) => {
+                let Obj::Sem(sm) = &objs_ref[o] else { panic!("vharness: not a semaphore") };
+                sm.close();
+                log_op(13, &[]);
+            }
+            Op::SemAvail(o) => {
+                let sm = match &objs_ref[o] {
+                    Obj::Sem(sm) => sm,
+                    _ => panic!("vharness: not a semaphore"),
+                };
+                log_op(14, &[sm.available_permits() as u64, sm.is_closed() as u64]);
+            }
+            Op::Lock(o) => {
+                let Obj::Mutex(m) = &objs_ref[o] else { panic!("vharness: not a mutex") };
+                let (code, g) = lock_code(m.lock(), |g| g);
+                guards.push(Guard::M(o, g));
+                log_op(15, &[code]);
+            }
+            Op::TryLock(o) => {
+                let Obj::Mutex(m) = &objs_ref[o] else { panic!("vharness: not a mutex") };
+                let code = match m.try_lock() {
+                    Ok(g) => {
+                        guards.push(Guard::M(o, g));
+                        0
+                    }
+                    Err(std::sync::TryLockError::Poisoned(p)) => {
+                        guards.push(Guard::M(o, p.into_inner()));
+                        1
+                    }
+                    Err(std::sync::TryLockError::WouldBlock) => 2,
+                };
+                log_op(16, &[code]);
+            }
+            Op::Unlock(o) | Op::RwUnlock(o) => {
+                let is_rw = matches!(op, Op::RwUnlock(_));
+                let idx = guards.iter().rposition(|g| g.obj() == o).expect("vharness: no guard");
+                let g = guards.remove(idx);
+                let w = matches!(g, Guard::W(..)) as u64;
+                drop(g);
+                if is_rw {
+                    log_op(20, &[w]);
+                } else {
+                    log_op(17, &[]);
+                }
+            }
+            Op::RwLock(o, write) => {
+                let Obj::RwLock(l) = &objs_ref[o] else { panic!("vharness: not a rwlock") };
+                let code = if write {
+                    let (c, g) = lock_code(l.write(), |g| g);
+                    guards.push(Guard::W(o, g));
+                    c
+                } else {
+                    let (c, g) = lock_code(l.read(), |g| g);
+                    guards.push(Guard::R(o, g));
+                    c
+                };
+                log_op(18, &[write as u64, code]);
+            }
+            Op::RwTry(o, write) => {
+                let Obj::RwLock(l) = &objs_ref[o] else { panic!("vharness: not a rwlock") };
+                let code = if write {
+                    match l.try_write() {
+                        Ok(g) => {
+                            guards.push(Guard::W(o, g));
+                            0
+                        }
+                        Err(std::sync::TryLockError::Poisoned(p)) => {
+                            guards.push(Guard::W(o, p.into_inner()));
+                            1
+                        }
+                        Err(std::sync::TryLockError::WouldBlock) => 2,
+                    }
+                } else {
+                    match l.try_read() {
+                        Ok(g) => {
+                            guards.push(Guard::R(o, g));
+                            0
+                        }
+                        Err(std::sync::TryLockError::Poisoned(p)) => {
+                            guards.push(Guard::R(o, p.into_inner()));
+                            1
+                        }
+                        Err(std::sync::TryLockError::WouldBlock) => 2,
+                    }
+                };
+                log_op(19, &[write as u64, code]);
+            }
         }
     }
     log_op(9, &[]);
+    // guards still held are dropped newest first, before the thread's epilogue
+    while let Some(g) = guards.pop() {
+        drop(g);
+    }
 }
 
 fn classify(payload: Box<dyn std::any::Any + Send>) -> String {
